@@ -82,6 +82,17 @@ func extractCFHeaders() {
 		l.def("writeNotifyAfterWrite", "Bool", lbool(wp != token.NoPos && np != token.NoPos && wp < np),
 			"the connect notifications follow the store write")
 		shape["writePrevCheckBeforeWrite"] = cp != token.NoPos && cp < wp
+		// the batch's blocks are resolved through the stop hash of the message
+		byStop := false
+		for _, c := range calls(fd.Body) {
+			if strings.HasSuffix(c.name, ".FetchHeaderAncestors") && len(c.args) == 2 &&
+				nospace(c.args[1]) == "&msg.StopHash" {
+				byStop = true
+			}
+		}
+		l.def("writeResolvesBlocksByStopHash", "Bool", lbool(byStop),
+			"writeCFHeadersMsg finds the blocks of a batch with FetchHeaderAncestors(n-1, &msg.StopHash): a batch for blocks no longer on the chain is not written")
+		shape["writeResolvesBlocksByStopHash"] = byStop
 		shape["writeNotifyAfterWrite"] = wp < np
 	}
 
@@ -108,6 +119,24 @@ func extractCFHeaders() {
 		}
 		l.def("thresholdExpr", "String", "\""+thr+"\"", "the majority threshold handed to resolveFilterMismatchFromBlock")
 		shape["thresholdExpr"] = thr
+	}
+
+	// resolveConflict: both sanity passes look at the complete checkpoint lists
+	if fd := funcDecl(f, "blockManager", "resolveConflict"); fd == nil {
+		fail("blockmanager.go: method blockManager.resolveConflict")
+	} else {
+		n, whole := 0, true
+		for _, c := range calls(fd.Body) {
+			if c.name == "checkCFCheckptSanity" {
+				n++
+				if len(c.args) != 2 || nospace(c.args[0]) != "checkpoints" {
+					whole = false
+				}
+			}
+		}
+		l.def("resolveSanityOnWholeLists", "Bool", lbool(n == 2 && whole),
+			"resolveConflict calls checkCFCheckptSanity twice, both times on the complete checkpoint lists")
+		shape["resolveSanityOnWholeLists"] = n == 2 && whole
 	}
 
 	// resolveFilterMismatchFromBlock
